@@ -30,8 +30,11 @@ def write_replay(pid, payload):
 def write_evidence(pid, ev):
     edir = os.path.join(VERIF, 'evidence') if not core.TAG else os.path.join(VERIF, 'build', 'mut', core.TAG)
     os.makedirs(edir, exist_ok=True)
-    with open(os.path.join(edir, pid + '.json'), 'w') as f:
+    final = os.path.join(edir, pid + '.json')
+    tmp = final + '.tmp_' + core.RUNID          # written whole, then renamed: a concurrent reader never sees half a file
+    with open(tmp, 'w') as f:
         json.dump(ev, f, indent=1, default=str)
+    os.replace(tmp, final)
 
 
 def child(pid, tier, seed, replay):
@@ -194,6 +197,7 @@ def main(argv):
     if replay:
         cmd += ['--replay', replay]
     env = dict(os.environ)
+    env['PV_RUNID'] = core.RUNID
     env.update(PYTHONPATH=VERIF + ':' + core.REPO, PYTHONHASHSEED='0', OMP_NUM_THREADS='1',
                VERIF_SEED=str(seed), PYTHONWARNINGS='ignore')
     limit = 3000 if tier == 'quick' else 4 * 3600
@@ -203,10 +207,14 @@ def main(argv):
         rc = p.returncode
     except subprocess.TimeoutExpired:
         rc = -999
+    cur = os.path.join(VERIF, 'build', 'run', pid + core.TAG + '_' + core.RUNID + '.current.json')
     if rc in (0, 1):
+        try:
+            os.remove(cur)
+        except OSError:
+            pass
         return rc
     # abnormal termination: crash / hang of the implementation under test
-    cur = os.path.join(VERIF, 'build', 'run', pid + core.TAG + '.current.json')
     case = None
     if os.path.exists(cur):
         try:
